@@ -16,7 +16,15 @@ import (
 	"verifharness/internal/vstat"
 )
 
-func lockstepSqueeze(withLock func(func()), first, second func()) { lockstep.Squeeze(withLock, first, second) }
+// lockstepSqueeze waits up to 10 s for both operations; false = one of them did not return.
+func lockstepSqueeze(withLock func(func()), first, second func()) bool {
+	select {
+	case <-lockstep.Squeeze(withLock, first, second):
+		return true
+	case <-time.After(10 * time.Second):
+		return false
+	}
+}
 
 // ---------------------------------------------------------------------------------------------
 // C03: the in-memory backend alone against the model, with records written already expired
@@ -288,7 +296,7 @@ func runSqueeze(pair string) *vstat.Violation {
 	switch pair {
 	case "create-create", "create-put":
 		var e1, e2 error
-		lockstepSqueeze(lock, func() { _, e1 = st.Create(ctx, kvs.Record{Key: "k", Value: []byte("a")}) },
+		completed := lockstepSqueeze(lock, func() { _, e1 = st.Create(ctx, kvs.Record{Key: "k", Value: []byte("a")}) },
 			func() {
 				if pair == "create-put" {
 					_, e2 = st.Put(ctx, kvs.Record{Key: "k", Value: []byte("b")})
@@ -296,6 +304,9 @@ func runSqueeze(pair string) *vstat.Violation {
 					_, e2 = st.Create(ctx, kvs.Record{Key: "k", Value: []byte("b")})
 				}
 			})
+		if !completed {
+			return vstat.V("inmem:call-never-returns", "%s forced to overlap: one of the two calls did not return within 10 s", pair)
+		}
 		if pair == "create-create" && (e1 == nil) == (e2 == nil) {
 			return vstat.V("inmem:create-two-winners", "two Create calls on one fresh key, forced to overlap: results %v and %v (want exactly one nil, one ErrExist)", e1, e2)
 		}
@@ -313,7 +324,7 @@ func runSqueeze(pair string) *vstat.Violation {
 	case "cas-cas", "cas-put", "cas-delete":
 		r0, _ := st.Put(ctx, kvs.Record{Key: "k", Value: []byte("0")})
 		var e1, e2 error
-		lockstepSqueeze(lock, func() { _, e1 = st.CasByVersion(ctx, kvs.Record{Key: "k", Value: []byte("a"), Version: r0.Version}) },
+		completed := lockstepSqueeze(lock, func() { _, e1 = st.CasByVersion(ctx, kvs.Record{Key: "k", Value: []byte("a"), Version: r0.Version}) },
 			func() {
 				switch pair {
 				case "cas-cas":
@@ -324,6 +335,9 @@ func runSqueeze(pair string) *vstat.Violation {
 					e2 = st.Delete(ctx, "k")
 				}
 			})
+		if !completed {
+			return vstat.V("inmem:call-never-returns", "%s forced to overlap: one of the two calls did not return within 10 s", pair)
+		}
 		if pair == "cas-cas" && e1 == nil && e2 == nil {
 			return vstat.V("inmem:cas-two-winners", "two CasByVersion calls against one version, forced to overlap, both succeeded")
 		}
@@ -343,7 +357,7 @@ func runSqueeze(pair string) *vstat.Violation {
 		done := make(chan error, 1)
 		wctx, cancel := context.WithCancel(ctx)
 		defer cancel()
-		lockstepSqueeze(lock, func() { done <- st.WaitForVersionChange(wctx, "k", r0.Version) },
+		lockstep.Squeeze(lock, func() { done <- st.WaitForVersionChange(wctx, "k", r0.Version) },
 			func() {
 				switch pair {
 				case "wait-put":
